@@ -53,11 +53,11 @@ ROUTE = {
     "sub82": "ipoe",
     "sesspap": "sess", "sesschap": "sess", "fzsess": "sess", "fzseq": "sess", "bkdhcp6": "sess", "bkrakick": "sess", "bkevd6": "sess", "bkevra": "sess", "bkevl2": "ipoe",
     "bkl2gw": "ipoe",
-    "attr80": "radius", "fzrad": "radius", "radreply": "radius", "radreqauth": "radius", "radma": "radius", "coaattrs": "radius",
+    "attr80": "radius", "fzrad": "radius", "radreply": "radius", "radreqauth": "radius", "radma": "radius", "coaattrs": "radius", "radex": "radius",
     "ipoeopts": "ipoe", "l2ppp": "il2tp", "fzipoe": "ipoe",
     "fzgopkt": "shm",
 }
-MODELLED = sorted(k for k in ROUTE if not k.startswith("fz") and not k.startswith("bk") and not (k.startswith("bld") and k not in ("papbld", "chapbld")))
+MODELLED = sorted(k for k in ROUTE if not k.startswith("fz") and not k.startswith("bk") and not (k.startswith("bld") and k not in ("papbld", "chapbld")) and k != "radex")
 BUILDERS = sorted(k for k in ROUTE if k.startswith("bld"))
 SCENARIOS = sorted(k for k in ROUTE if k.startswith("bk"))
 FUZZ_ONLY = sorted(k for k in ROUTE if k.startswith("fz"))
@@ -815,6 +815,18 @@ def gen_cases(rng, tier, budget):
         add(case("radreqauth", [], c, dq))
         add(case("radma", [], c, dm))
     family(rng, tier, gen_radius, nv, 2 * nm, rad_emit)
+    # exchange histories: hostile datagrams from the server's address BEFORE (and after) the genuine reply
+    for k in (0, 1, 2, 3, 4, 5, 6):
+        add(case("radex", [], bytes([k, 9])))
+        add(case("radex", [], bytes([9, k])))
+    add(case("radex", [], bytes([9])))
+    add(case("radex", [], bytes([0, 1, 2, 3, 4, 5, 6, 9, 0])))
+    add(case("radex", [], bytes([6, 6, 9])))
+    add(case("radex", [], bytes([0, 2])))          # no genuine reply at all: the exchange times out
+    for _ in range(10 if q else 200):
+        h = [rng.choice([0, 0, 1, 2, 3, 4, 5, 6]) for _ in range(rng.randint(1, 6))]
+        h.insert(rng.randint(0, len(h)), 9)
+        add(case("radex", [], bytes(h)))
     for n in range(0, 24):
         rad_emit(bytes(n))
         rad_emit(b"\x02\x01" + be16(n) + bytes(20))
@@ -943,9 +955,15 @@ def nontrivial(case_line, impl):
 
 def classify(case_line, impl, model):
     e = case_line.split(" ", 1)[0]
+    if e == "radex" and impl != model:
+        return "P", ("radex: with this history of datagrams from the server's address the RADIUS exchange %s "
+                     "(a hostile datagram must be ignored: the genuine reply has to reach the requester)" %
+                     ("timed out although the genuine reply was sent" if impl == "ok 0" else "returned %r, expected %r" % (impl, model)))
     if e.startswith("bk") and impl.startswith("ok ") and model.startswith("ok ") and impl != model:
         it, mt = impl.split(), model.split()
         n = case_line.split()[1].split(",")[0]
+        if False:
+            pass
         if e.startswith("bkev"):
             k = next((i for i, (a, b) in enumerate(zip(it, mt)) if a != b), min(len(it), len(mt)))
             return "P", ("%s: at step %d of the arrive/finish history the real queue (occupancy, outcome) is %r, the pool model says %r"
